@@ -207,6 +207,30 @@ impl Explorer {
     }
 }
 
+use crate::report::BUDGET_HIT;
+
+/// Executions one exploration may run (a change to the code under test can multiply the steps
+/// of an operation and with it the number of schedules). Hitting it is reported as a coverage
+/// limit, never as a verdict.
+pub fn execution_budget() -> u64 {
+    static B: std::sync::OnceLock<u64> = std::sync::OnceLock::new();
+    *B.get_or_init(|| {
+        std::env::var("VERIF_EXEC_BUDGET").ok().and_then(|v| v.parse().ok()).unwrap_or_else(|| {
+            if std::env::var("VERIF_TIER").map_or(false, |t| t == "thorough") {
+                50_000_000
+            } else {
+                2_000_000
+            }
+        })
+    })
+}
+
+fn note_budget_hit(n: u64) {
+    if !BUDGET_HIT.swap(true, Ordering::SeqCst) {
+        println!("NOTE: an exploration stopped at its budget of {} executions (coverage below the stated bound; see evidence)", n);
+    }
+}
+
 #[derive(Default, Debug, Clone)]
 pub struct ExploreStats {
     pub executions: u64,
@@ -221,6 +245,7 @@ pub struct ExploreStats {
 pub fn explore_seq(bound: Option<u32>, mut body: impl FnMut(&mut Explorer) -> bool) -> ExploreStats {
     let mut ex = Explorer::new(bound);
     let mut stopped = false;
+    let budget = execution_budget();
     loop {
         ex.begin();
         let cont = body(&mut ex);
@@ -230,6 +255,11 @@ pub fn explore_seq(bound: Option<u32>, mut body: impl FnMut(&mut Explorer) -> bo
             break;
         }
         if !more {
+            break;
+        }
+        if ex.executions >= budget {
+            note_budget_hit(budget);
+            stopped = true;
             break;
         }
     }
@@ -265,6 +295,7 @@ pub fn explore_parallel(
     let cv = Condvar::new();
     let stop = AtomicBool::new(false);
     let executions = AtomicU64::new(0);
+    let running = AtomicU64::new(0);
     let nodes = AtomicU64::new(0);
     let ntasks = AtomicU64::new(0);
     let max_depth = AtomicU64::new(0);
@@ -309,6 +340,11 @@ pub fn explore_parallel(
                         break;
                     }
                     if !more {
+                        break;
+                    }
+                    if running.fetch_add(1, Ordering::Relaxed) >= execution_budget() {
+                        note_budget_hit(execution_budget());
+                        stop.store(true, Ordering::Relaxed);
                         break;
                     }
                 }
